@@ -40,9 +40,17 @@ func init() {
 
 var c12Ops = []string{"Write", "Write1", "Writev", "CtxWrite1", "CtxWritev", "ReadFrom", "Writer().Write", "Trigger", "Close", "IsActive", "Context"}
 
-type evSink struct{ n int64 }
+type evSink struct {
+	n    int64
+	slow time.Duration // keep the delivering goroutine (e.g. an idle timer callback) busy for a while
+}
 
-func (e *evSink) HandleEvent(ctx netty.EventContext, ev netty.Event) { atomic.AddInt64(&e.n, 1) }
+func (e *evSink) HandleEvent(ctx netty.EventContext, ev netty.Event) {
+	atomic.AddInt64(&e.n, 1)
+	if e.slow > 0 {
+		time.Sleep(e.slow)
+	}
+}
 
 type c12Event struct{ n int }
 
@@ -160,7 +168,7 @@ func c12Idle(c *core.Ctx, n int, wg *sync.WaitGroup) {
 		wg.Add(1)
 		go func(i int) {
 			defer wg.Done()
-			sink := &evSink{}
+			sink := &evSink{slow: 120 * time.Millisecond}
 			rig := mon.NewRig(mon.RigOpts{Mode: mon.Mode(i % 3), Queue: 4, QuietTail: true, NoHooks: true,
 				Handlers: []netty.Handler{netty.ReadIdleHandler(time.Second), netty.WriteIdleHandler(time.Second), sink}})
 			t0 := time.Now()
@@ -172,6 +180,14 @@ func c12Idle(c *core.Ctx, n int, wg *sync.WaitGroup) {
 				time.Sleep(time.Duration(20+i*7) * time.Millisecond)
 			}
 			time.Sleep(time.Duration(1000+i*13) * time.Millisecond)
+			// the timers have fired by now (their callbacks are kept busy by the slow event handler): more reads
+			// and writes pass the idle handlers while / right after the callbacks run
+			for k := 0; k < 12; k++ {
+				rig.T.FeedBytes([]byte("late"))
+				rig.Ch.Write([]byte("late"))
+				time.Sleep(time.Duration(15+i) * time.Millisecond)
+			}
+			time.Sleep(time.Duration(700+i*29) * time.Millisecond)
 			rig.Ch.Close(errSentinel)
 			c.Count("idle_timer_callbacks", atomic.LoadInt64(&sink.n))
 			time.Sleep(50 * time.Millisecond)
